@@ -42,8 +42,9 @@ CLAIMS = {
             "Decides presence and placement of every balance gate and accumulator: compaction commit only on input == output + "
             "discard, I/O/D on every store transaction, tree-vs-manifest comparison on open and before install, builders "
             "accumulate every entry and seal writes that digest, GC adds each dropped entry to the discard it reports, the "
-            "verifier's gates exist, fail closed and dominate its verdict.  Does not decide that the numbers are right for "
-            "every history or that every tamper is rejected.", "§4 C04"),
+            "verifier's gates exist, fail closed and dominate its verdict, every edit refreshes the state the final gate checks, and "
+            "the verifier reads every file a transaction adds and recomputes its setsum (the necessary condition of rejecting an "
+            "altered output).  Does not decide that the numbers are right for every history or that every tamper is rejected.", "§4 C04"),
     "C05": ("who-may-call + GUARDED (GC only under top_level), loop-body MUSTPASS (every entry read is written; every input/output wired; every policy child consulted), per-key state reset analysis, accumulator shape of the policy combinators, ORIGIN",
             "Decides rewrite completeness and GC confinement: GC is reachable only on the top_level edge and only with the "
             "configured policy; a plain compaction writes every entry it reads and leaves its loop only at end of input; "
